@@ -801,7 +801,15 @@ func (env *Env) call(x *Expr) Val {
 		// concat(a, b): the term the engine uses for the Go expression a + b on strings
 		a, b := env.tr(x.Args[0]), env.tr(x.Args[1])
 		f := e.sc.declFun("sconcat", []string{"Int", "Int"}, "Int")
-		return Val{T: fmt.Sprintf("(%s %s %s)", f, a.T, b.T), Ty: types.Typ[types.String]}
+		r := fmt.Sprintf("(%s %s %s)", f, a.T, b.T)
+		if env.qvars == 0 && !e.sc.seen["concatfacts "+r] {
+			// the same length / position facts the executor states for a + b
+			e.sc.seen["concatfacts "+r] = true
+			e.sc.assert(fmt.Sprintf("(= (slen %s) (+ (slen %s) (slen %s)))", r, a.T, b.T))
+			e.sc.assert(fmt.Sprintf("(forall ((i Int)) (! (=> (and (<= 0 i) (< i (slen %s))) (= (sat %s i) (sat %s i))) :pattern ((sat %s i))))", a.T, r, a.T, r))
+			e.sc.assert(fmt.Sprintf("(forall ((i Int)) (! (=> (and (<= 0 i) (< i (slen %s))) (= (sat %s (+ (slen %s) i)) (sat %s i))) :pattern ((sat %s i))))", b.T, r, a.T, b.T, b.T))
+		}
+		return Val{T: r, Ty: types.Typ[types.String]}
 	case "visited":
 		if env.visitedComp == nil {
 			sfail("visited() outside a map-range loop")
